@@ -455,6 +455,8 @@ def enum_resume(tier):
                 yield {"k": SEED * 104729 + i, "acc_id": "AA:BB:CC:DD:EE:FF", "ios_id": "ios-1", "fault": [name, p], "chain": chain}
 
 
+from props.ble_layers import C01_BLE_LAYERS  # noqa: E402
+
 SPEC = Property(
     P, "fault_enumeration",
     rule=("pairing record (generated long-term keys, identifiers of 1..40 bytes incl. UTF-8) x generated ephemeral keys (injected) x one "
@@ -471,6 +473,7 @@ SPEC = Property(
         Layer("faults-gen", run_full, strategy=full_cases, n={"quick": 16000, "thorough": 300000}, min_nontrivial=1000),
         Layer("resume-families", run_resume, enumerate=enum_resume, exhaustive=True, space="every resume fault incl. all 128 tag bits and 64 session-id bits, chain 0/1", min_nontrivial=100),
         Layer("resume-gen", run_resume, strategy=resume_cases, n={"quick": 4000, "thorough": 60000}, min_nontrivial=100),
+        *C01_BLE_LAYERS,
     ],
     assumptions=["reference accessory (vlib/refhap.py RefPairVerify) written from HAP R2 5.7 and the HAP-BLE resume procedure",
                  "`cryptography` X25519/Ed25519/ChaCha20-Poly1305 and hashlib/hmac are trusted",
